@@ -557,6 +557,21 @@ func run(r *hk.Run) {
 			encUT("timestamp_tzdata", time.Date(2001+r.Rng.Intn(98), time.Month(mo), 1+r.Rng.Intn(28), r.Rng.Intn(24), r.Rng.Intn(60), r.Rng.Intn(60), 0, loc))
 		}
 	}
+	// the same Location at many instants in a row, across the changes of its standard offset and its DST
+	// rules (Caracas 2007/2016, Pyongyang 2015/2018, Moscow 2011/2014, Apia 2011, Istanbul 2016, ...):
+	// the zone octet is a function of the instant, not of the Location value
+	hist := append([]string{"Asia/Pyongyang", "Europe/Moscow", "Pacific/Apia", "Europe/Istanbul", "Asia/Seoul", "America/Sao_Paulo", "Africa/Cairo"}, locs...)
+	for _, name := range hist {
+		loc, err := time.LoadLocation(name)
+		if err != nil {
+			continue
+		}
+		for y := 2001; y <= 2032; y++ {
+			for _, mo := range []int{1, 7} {
+				encUT("timestamp_tzdata_history", time.Date(y, time.Month(mo), 15, 12, 0, 0, 0, loc))
+			}
+		}
+	}
 	r.Extra["tzdata_locations_loaded"] = loaded
 	for i := 0; i < r.N(150, 5000); i++ {
 		encUT("timestamp_random", time.Date(2000+r.Rng.Intn(100), time.Month(1+r.Rng.Intn(12)), 1+r.Rng.Intn(28), r.Rng.Intn(24), r.Rng.Intn(60), r.Rng.Intn(60), 0, fz(r.Rng.Intn(159)-79)))
